@@ -358,6 +358,18 @@ def c16zPut : Instr :=
 def c16zFloat : DState := { c16aState with book := c16aBook ++ [c16zPut] }
 end Deribit
 
+/-- **at an underlying price of 0 `update()` is not atomic** (kernel-checked, exact arithmetic): a call expired in the money (row in
+    the book) followed in the dict by a put whose instrument has left the book while the token price is 0 — `update()` raises
+    `DivisionByZero`, yet the call has been paid (cash 1 → 1.076623) and its Deliver record written, and all three positions are
+    still held: the next `update()` would pay the call again.  Outside the data contract (`SettleGuard`), which is why every
+    statement about `update()` carries it. -/
+theorem C16_update_at_zero_underlying_is_not_atomic :
+    (updateE DCtx.exact ethCfg Deribit.c16zState).1 = .error .divisionByZero ∧
+    (updateE DCtx.exact ethCfg Deribit.c16zState).2.cash = Deribit.c16zState.cash + (76923 / 1000000 - 3 / 10000) ∧
+    (updateE DCtx.exact ethCfg Deribit.c16zState).2.actions.length = Deribit.c16zState.actions.length + 1 ∧
+    (updateE DCtx.exact ethCfg Deribit.c16zState).2.positions = Deribit.c16zState.positions ∧
+    ¬ Deribit.SettleGuard Deribit.c16zState := by decide +kernel
+
 section
 open Deribit
 example : SettleGuard c16aState := by decide +kernel
